@@ -298,9 +298,6 @@ func expectSeq(s *seqSong) (x seqExpect) {
 		total32 += l
 	}
 	x.total = total32 * t32
-	if x.total >= 1<<32 {
-		return out("song of 2^32 ticks or more")
-	}
 	prev := sig{4, 4}
 	for i, b := range s.bars {
 		st := start32[i] * t32
@@ -346,6 +343,27 @@ func expectSeq(s *seqSong) (x seqExpect) {
 	}
 	sort.Ints(x.trackNos)
 	sortTM(x.all)
+	if x.total >= 1<<32 {
+		// delta times are 32-bit: a song this long is expressible only if no track (time-signature track, event tracks)
+		// is silent for 2^32 ticks, the stretch up to the end of the song included
+		gapsOK := func(l []tickMsg) bool {
+			var last uint64
+			for _, e := range l {
+				if e.tick-last >= 1<<32 {
+					return false
+				}
+				last = e.tick
+			}
+			return x.total-last < 1<<32
+		}
+		ok := gapsOK(x.sigs)
+		for _, l := range x.perTrack {
+			ok = ok && gapsOK(l)
+		}
+		if !ok {
+			return out("song of 2^32 ticks or more with a track that is silent for 2^32 ticks")
+		}
+	}
 	x.inDomain = true
 	return x
 }
@@ -777,6 +795,39 @@ func init() {
 					tags = append(tags, "why:"+x.why)
 				}
 				emit(Case{Op: s.String(), Tags: uniq(tags), NonTrivial: x.inDomain && len(s.bars) >= 2 && x.sigChg > 0 && x.notes > 0})
+			}
+			// long songs: 2^32 ticks and more in total (thousands of long bars at a high resolution) with signature changes
+			// and events often enough that every delta stays below 2^32
+			nlong := 2
+			if tier == "thorough" {
+				nlong = 25
+			}
+			for i := 0; i < nlong; i++ {
+				s := &seqSong{q: uint16(r.Pick(65528, 65528, 65520, 61440))}
+				nb := r.Range(2250, 2700)
+				sigs := [][2]uint8{{15, 2}, {7, 1}, {15, 2}, {24, 4}, {15, 2}}
+				ntr := r.Range(1, 3)
+				for b := 0; b < nb; b++ {
+					var bar seqBar
+					if b%r.Range(300, 700) == 0 {
+						sg := sigs[(b/300+i)%len(sigs)]
+						bar.num, bar.den = sg[0], sg[1]
+					}
+					for t := 0; t < ntr; t++ {
+						if b == 0 || r.Chance(1, 25) {
+							bar.evs = append(bar.evs, seqEvent{t, uint8(r.Intn(100)), uint8(r.Intn(30)), []byte{0x90 | byte(t), byte(r.Intn(128)), byte(1 + r.Intn(127))}})
+						}
+					}
+					s.bars = append(s.bars, bar)
+				}
+				x := expectSeq(s)
+				tags := []string{"long-song(>=2^32 ticks)"}
+				if !x.inDomain {
+					tags = append(tags, "why:"+x.why)
+				} else {
+					tags = append(tags, "in-domain")
+				}
+				emit(Case{Op: s.String(), Tags: tags, NonTrivial: x.inDomain})
 			}
 			if tier == "thorough" {
 				// 2^32 ticks and more: the closing delta of a track without late events wraps (outside the domain, ties the uint32 conversions)
